@@ -37,7 +37,10 @@ def extract_fgraph(spec):
     from spox._internal_op import Argument
     from spox._public import _temporary_renames
 
-    inputs, outputs = L.realise(spec)
+    try:
+        inputs, outputs = L.realise(spec)
+    except Exception as e:  # noqa: BLE001 - the program itself is rejected at construction time
+        return None, ("skip", f"realise: {type(e).__name__}"), []
     fps: dict[bytes, int] = {}
 
     def fp_of(b: bytes) -> int:
